@@ -45,7 +45,7 @@ func VerifRecorder(write func(line []byte)) func(ev string, args ...interface{})
 		switch ev {
 		case "ParseEnter", "ParseReturn":
 			rd, _ = args[1].(text.Reader)
-		case "Open", "Continue", "ParaContinue", "Close", "EndOfInput":
+		case "Open", "Continue", "ParaContinue", "Close", "Discard", "EndOfInput":
 			rd, _ = args[0].(text.Reader)
 		default:
 			return
@@ -84,6 +84,9 @@ func VerifRecorder(write func(line []byte)) func(ev string, args ...interface{})
 		case "Close":
 			node, _ := args[1].(ast.Node)
 			write([]byte(fmt.Sprintf(`{"t":%d,"ev":"Close","node":%d,"idx":%d}`, c.t, id(c, node), args[2].(int))))
+		case "Discard":
+			node, _ := args[1].(ast.Node)
+			write([]byte(fmt.Sprintf(`{"t":%d,"ev":"Discard","node":%d}`, c.t, id(c, node))))
 		case "EndOfInput":
 			blocks, _ := args[1].([]Block)
 			s := "["
